@@ -232,6 +232,18 @@ def check_perf(case, acc):
     if int(dur) != d_duration(want_dd):
         V('drawdown-duration', 'drawdown duration %r, longest under-water run is %d' % (dur, d_duration(want_dd)))
     acc.count('C17:drawdown_checks')
+    # the same public function on the raw equity values (a series that does not start at 1.0): "1 - value / running
+    # maximum, the running maximum including the first observation" holds for any positive series
+    raw = pd.Series([float(v) for v in xs], index=cum.index)
+    dd_r, max_r, dur_r = perf.create_drawdowns(raw)
+    want_r = d_drawdowns([float(v) for v in xs])
+    for i, (g, w) in enumerate(zip([float(v) for v in dd_r], want_r)):
+        if not same(g, w, 1e-9, 1e-12):
+            V('drawdown-series/raw-equity', 'drawdown of the raw equity series at point %d is %r, 1 - value/running maximum = %r (first '
+              'value %r)' % (i, g, w, xs[0]), index=i)
+    if not same(max_r, max(want_r), 1e-9, 1e-12):
+        V('max-drawdown/raw-equity', 'max drawdown of the raw equity series %r, expected %r' % (max_r, max(want_r)))
+    acc.count('C17:drawdown_checks_on_raw_equity')
 
     # CAGR / Sharpe / Sortino
     got = perf.create_cagr(cum, PERIODS)
@@ -324,7 +336,12 @@ def check_reporters(case, acc, tmpdir):
     df4 = pd.DataFrame({'Equity': bench}, index=ds)
     periods = [252, 252, 52, 12, 1638][len(xs) % 5]        # the reporters take the annualisation factor as a parameter
     with np.errstate(all='ignore'):
-        ts_obj0 = TearsheetStatistics(strategy_equity=df1, periods=periods)
+        if len(xs) % 3 == 0:
+            ts_obj0 = TearsheetStatistics(strategy_equity=df1, periods=7)
+            ts_obj0.periods = periods                 # the annualisation factor set after construction (a public attribute)
+            acc.count('C17:tearsheets_given_their_periods_after_construction')
+        else:
+            ts_obj0 = TearsheetStatistics(strategy_equity=df1, periods=periods)
         ts_stats = ts_obj0.get_results(df1)
         ts_bench = TearsheetStatistics(strategy_equity=df4, periods=periods).get_results(df4)
         path = os.path.join(tmpdir, 'stats.json')
